@@ -95,7 +95,10 @@ CLAIMS = {
                      "regenerated table (TokIR/ChunkInv.v: kept by every step, by appended input and injected script text, true of "
                      "every initial machine), so the relation is the fuelled executable loop on every reachable machine. In exact mode the chunked-queue "
                      "interpreter equals the reference one token for token (TokIR/QueueSim.v), and the executable driver "
-                     "(feed loops, script injection, end()) is chunk-independent (TokIR/ChunkExec.v). Still "
+                     "(feed loops, script injection, end()) is chunk-independent (TokIR/ChunkExec.v). The tree-builder half: over "
+                     "the token-level model of the XML tree builder (XmlNs/XTreeModel.v, tied to the code by C16's correspondence) the "
+                     "document built, and every state component except the parse-error count, do not depend on how character data is "
+                     "cut into character tokens (XmlNs/XSplit.v, C15_tree_builder_independent_of_character_token_splitting). Still "
                      "_partial: the bulk-read / non-exact interpreter vs the reference semantics, and the Rust code "
                      "vs the interpreter, are tied differentially. Chunking / exact_errors / discard_bom independence of the real "
                      "parser and the normalisation law tree(x) = tree(normalise(x)) are checked metamorphically on the "
